@@ -257,7 +257,7 @@ pub fn run(ctx: &Ctx, out: &mut Out) {
         }
         return;
     }
-    let nseq = ctx.share(12_000, 120_000);
+    let nseq = ctx.share(12_000, 600_000);
     for i in 0..nseq {
         signer_sequence(out, &mut rng, i * ctx.nshards + ctx.shard);
         if i % 16 == 0 && !ctx.time_left() {
@@ -265,7 +265,7 @@ pub fn run(ctx: &Ctx, out: &mut Out) {
             break;
         }
     }
-    let nflip = ctx.share(400, 4_000);
+    let nflip = ctx.share(400, 20_000);
     for i in 0..nflip {
         verifier_flips(out, &mut rng, i * ctx.nshards + ctx.shard);
         if !ctx.time_left() {
